@@ -94,9 +94,14 @@ Shortest(T) == CHOOSE t \in T : \A u \in T : Len(t) <= Len(u)
 \* successful check.  fa: activations in the hold; fo: expansion of the latest one; fp: 1 = an activation shared a
 \* non-empty prefix with the expansion it superseded, 2 = a further activation followed; fs: a shift was held at
 \* such a supersede; fd: the OS received a press of a character key that was already down; fu: a punctuation key
-\* deleted a smart space.
+\* deleted a smart space; fc: while a follow-up context was pending a key was pressed that belongs to a follow-up
+\* chord of more than one key but to no top-level chord; fh: a follow-up chord was completed in the same hold as its
+\* antecedent; fds: the OS received a press of the space key while it was down (smart space with space held).
 Class(m, rule) ==
   IF m.fd THEN " class=key-already-down"
+  ELSE IF m.fds THEN " class=smart-space-while-space-held"
+  ELSE IF m.fh THEN " class=followup-in-same-hold"
+  ELSE IF m.fc THEN " class=followup-first-key-in-no-top-level-chord"
   ELSE IF (rule = "T4" /\ m.fp >= 1) \/ m.fp = 2 THEN " class=supersede-after-prefix-reuse"
   ELSE IF m.fs THEN " class=shift-prefix-reuse"
   ELSE IF m.fu THEN " class=punctuation"
@@ -106,7 +111,7 @@ MonInit(p) ==
   [p |-> p, pend |-> <<>>, held |-> <<>>, um |-> {}, os |-> {}, buf |-> <<>>, neg |-> 0, exp |-> <<>>,
    zs |-> "on", ph |-> "S", good |-> FALSE, el |-> 0, quiet |-> p.qcap,
    ctx |-> <<>>, ctxSure |-> TRUE, ctxBase |-> <<>>, last |-> "none", sp |-> FALSE, cn |-> FALSE,
-   fa |-> 0, fp |-> 0, fs |-> FALSE, fd |-> FALSE, fu |-> FALSE, fo |-> <<>>, err |-> ""]
+   fa |-> 0, fp |-> 0, fs |-> FALSE, fd |-> FALSE, fu |-> FALSE, fc |-> FALSE, fh |-> FALSE, fds |-> FALSE, sa |-> FALSE, fo |-> <<>>, err |-> ""]
 
 \* ---- the actual text: OS events applied to the buffer ---------------------------------------
 RECURSIVE Apply(_, _)
@@ -116,7 +121,8 @@ Apply(m, out) ==
     LET e == Head(out)
         p == m.p
     IN IF e[1] = "d"
-       THEN IF e[2] \in m.os THEN Apply(IF e[2] \in Mods(p) THEN m ELSE [m EXCEPT !.fd = TRUE], Tail(out))
+       THEN IF e[2] \in m.os THEN Apply(IF e[2] \in Mods(p) THEN m
+                                        ELSE IF e[2] = p.spc THEN [m EXCEPT !.fds = TRUE] ELSE [m EXCEPT !.fd = TRUE], Tail(out))
             ELSE LET m1 == [m EXCEPT !.os = @ \cup {e[2]}] IN
                  IF e[2] = p.bspc
                  THEN Apply(IF m1.buf = <<>> THEN [m1 EXCEPT !.neg = @ + 1] ELSE [m1 EXCEPT !.buf = DropLast(@)], Tail(out))
@@ -151,7 +157,8 @@ PressChar(m, k) ==
       e == IF first THEN 0 ELSE m.el
       ph1 == IF ph0 = "S" /\ e > p.D THEN "X" ELSE ph0
       boundary == ph1 = "S" /\ e = p.D
-      ctxOk == m.ctxSure /\ m.quiet < p.fwin
+      \* a follow-up is only REQUIRED to work after its antecedent was released ("releasing all keys", docs)
+      ctxOk == m.ctxSure /\ m.quiet < p.fwin /\ ~m.cn
       S == HeldKeys(m) \cup {k}
       top == Children(p, <<>>)
       kids == IF m.ctx = <<>> THEN {} ELSE Children(p, m.ctx)
@@ -163,11 +170,14 @@ PressChar(m, k) ==
       isPunct == m.sp /\ \E i \in DOMAIN p.punct : p.punct[i] = [c |-> k, sh |-> shiftHeld, ag |-> agHeld]
       spSure == IF first THEN m.zs = "on" /\ m.quiet < p.fwin ELSE ph1 = "S" /\ ~boundary
       pres == IF ~isPunct THEN {m.exp} ELSE IF spSure THEN {DropLast(m.exp)} ELSE {m.exp, DropLast(m.exp)}
+      \* the case of the first character is free when a shift is held, and when the expansion continues (same first
+      \* element) the expansion of the preceding activation that was made with a shift held
+      AnyFirst(o) == shiftHeld \/ (m.sa /\ m.fo # <<>> /\ o # <<>> /\ m.fo[1] = o[1])
       \* candidates
       TopBase(c, pre) == Shortest({SnapOf(m, h) : h \in KeysOf(c) \cap HeldKeys(m)} \cup {pre})
       Act(c, base, pre) ==
         LET o == OutOf(p, c) IN
-        [t |-> IF o = <<>> THEN Append(pre, lit) ELSE base \o ExpOut(p, o, shiftHeld) \o SmartSpace(p, o),
+        [t |-> IF o = <<>> THEN Append(pre, lit) ELSE base \o ExpOut(p, o, AnyFirst(o)) \o SmartSpace(p, o),
          kind |-> "act", c |-> c, base |-> IF o = <<>> /\ Len(c) > 1 THEN m.ctxBase ELSE base, pre |-> pre,
          spc |-> p.ss = "full" /\ SmartSpace(p, o) # <<>>]
       LitC(pre) == [t |-> Append(pre, lit), kind |-> "lit", c |-> <<>>, base |-> <<>>, pre |-> pre, spc |-> FALSE]
@@ -190,12 +200,14 @@ PressChar(m, k) ==
       acts == {c \in matching : c.kind = "act"}
       r == IF acts # {} THEN CHOOSE c \in acts : TRUE ELSE CHOOSE c \in matching : TRUE
       amb == Cardinality({c.c : c \in acts}) > 1
-      share(o) == m.fa > 0 /\ m.fo # <<>> /\ o # <<>> /\ m.fo[1] = o[1]
+      share(c) == LET o == OutOf(p, c) IN (m.fa > 0 \/ Len(c) > 1) /\ m.fo # <<>> /\ o # <<>> /\ m.fo[1] = o[1]
+      sameHold(c) == m.cn /\ Len(c) > 1
   IN
   IF matching = {}
   THEN Fail(m, "C20 T4: text after a key press is neither the literal one nor base ++ expansion (garbled)"
                 \o Class([m EXCEPT !.fu = @ \/ isPunct,
-                                    !.fs = @ \/ (shiftHeld /\ \E c \in cands : c.kind = "act" /\ share(OutOf(p, c.c)))], "T4"))
+                                    !.fs = @ \/ (shiftHeld /\ \E c \in cands : c.kind = "act" /\ share(c.c)),
+                                    !.fh = @ \/ (\E c \in cands : c.kind = "act" /\ sameHold(c.c))], "T4"))
   ELSE IF r.kind = "act"
   THEN [m EXCEPT !.exp = r.t, !.el = 0, !.last = "act", !.quiet = 0, !.sp = r.spc,
                  !.ctx = IF HasFollow(p, r.c) THEN r.c ELSE <<>>,
@@ -204,8 +216,8 @@ PressChar(m, k) ==
                                  [k |-> k, t |-> IF OutOf(p, r.c) = <<>> THEN r.pre ELSE r.base]),
                  !.ph = ph1, !.good = FALSE, !.cn = TRUE,
                  !.fa = OMin(@ + 1, 3), !.fo = OutOf(p, r.c), !.fu = @ \/ isPunct,
-                 !.fp = IF @ >= 1 THEN 2 ELSE IF share(OutOf(p, r.c)) THEN 1 ELSE 0,
-                 !.fs = @ \/ (share(OutOf(p, r.c)) /\ shiftHeld)]
+                 !.fp = IF @ >= 1 THEN 2 ELSE IF share(r.c) THEN 1 ELSE 0,
+                 !.fs = @ \/ (share(r.c) /\ shiftHeld), !.fh = @ \/ sameHold(r.c), !.sa = @ \/ shiftHeld]
   ELSE [m EXCEPT !.exp = r.t, !.el = IF first THEN 0 ELSE @, !.last = "lit", !.quiet = 0, !.sp = FALSE,
                  !.ctx = IF m.ctx # <<>> /\ ~partialCtx THEN <<>> ELSE @,
                  !.ctxSure = IF m.ctx # <<>> /\ ~partialCtx THEN TRUE ELSE @,
@@ -215,12 +227,13 @@ PressChar(m, k) ==
                         THEN (IF boundary /\ sharpWantsAct THEN "X"
                               ELSE IF partialTop \/ (partialCtx /\ ctxOk) THEN "S" ELSE "M")
                         ELSE ph1,
-                 !.good = FALSE, !.fu = @ \/ isPunct]
+                 !.good = FALSE, !.fu = @ \/ isPunct, !.fc = @ \/ (m.ctx # <<>> /\ partialCtx /\ ~partialTop)]
 
 ReleaseChar(m, k) ==
   LET p == m.p
       held1 == SelectSeq(m.held, LAMBDA h : h.k # k)
-      ph1 == IF m.ph = "S" THEN "R" ELSE m.ph
+      \* after a release in a hold that ran into the deadline the documentation does not say when zippy is enabled again
+      ph1 == IF m.ph = "S" THEN "R" ELSE IF m.ph = "X" THEN "M" ELSE m.ph
       good1 == IF m.ph = "S" THEN (m.last = "act" /\ m.el < p.D) ELSE m.good
       m1 == [m EXCEPT !.held = held1, !.ph = ph1, !.good = good1, !.quiet = 0]
   IN IF held1 # <<>> THEN m1
@@ -228,9 +241,9 @@ ReleaseChar(m, k) ==
           \* a follow-up context that was not (re)established by an activation in this hold is over
           IF m.cn
           THEN [m1 EXCEPT !.zs = IF on THEN "on" ELSE "maybe", !.ctxSure = IF on \/ m.ctx = <<>> THEN @ ELSE FALSE,
-                          !.ph = "S", !.good = FALSE, !.last = "none", !.cn = FALSE]
+                          !.ph = "S", !.good = FALSE, !.last = "none", !.cn = FALSE, !.sa = IF m.ctx # <<>> THEN @ ELSE FALSE]
           ELSE [m1 EXCEPT !.zs = IF on THEN "on" ELSE "maybe", !.ctx = <<>>, !.ctxSure = TRUE, !.ctxBase = <<>>,
-                          !.ph = "S", !.good = FALSE, !.last = "none", !.cn = FALSE]
+                          !.ph = "S", !.good = FALSE, !.last = "none", !.cn = FALSE, !.sa = FALSE]
 
 Process(m, ev) ==
   LET p == m.p IN
@@ -253,7 +266,8 @@ EndChecks(m) ==
   THEN Fail(m, "C20 T1: text on screen differs from the expected text (expansion / literal typing)" \o Class(m, "T1"))
   ELSE IF m.os # m.um THEN Fail(m, "C20 T3: a key is still down at the OS although all keys are released")
   ELSE \* commit: forget the text no later rule can refer to
-       LET m0 == [m EXCEPT !.fa = 0, !.fp = 0, !.fs = FALSE, !.fd = FALSE, !.fu = FALSE, !.fo = <<>>] IN
+       LET m0 == [m EXCEPT !.fa = 0, !.fp = 0, !.fs = FALSE, !.fd = FALSE, !.fu = FALSE, !.fc = FALSE, !.fh = FALSE,
+                            !.fds = FALSE, !.fo = IF m.ctx = <<>> THEN <<>> ELSE @] IN
        IF m.sp THEN m0
        ELSE IF m.ctx = <<>> THEN [m0 EXCEPT !.buf = <<>>, !.exp = <<>>, !.ctxBase = <<>>]
        ELSE LET n == Len(m.ctxBase) IN
